@@ -13,6 +13,7 @@ def mc_cfg(invs=(), props=(), kinds=ALLK, L="1", alpha=ALPHA11, caps="{1, 100000
            family="EXT", maxlen=100000, follow="{}", lanebytes="{}", spec="MCSpec"):
     c = families.gen_cfg(family, caps=caps, kinds=kinds, maxlen=maxlen, phases=phases, cfgs=cfgs, follow=follow,
                          alpha=alpha, L=L, lanebytes=lanebytes)
+    c = dict(c)
     lines = ["SPECIFICATION " + spec, "CONSTANTS"]
     for k, v in c.items():
         lines.append("  %s = %s" % (k, v))
@@ -52,36 +53,42 @@ RULE_VEC = ("vectors are TLC-generated behaviours of spec/Gen.tla (every visited
 def c06(res):
     t = res.tier
     mc_head(res, "language-req", invs=["InvLanguage"], kinds='{"req"}', L=fam(t, "2", "3"), alpha=ALPHA17 if t == "quick" else ALPHA11)
-    for f in fam(t, ["byte_q", "ext_q", "lane_q", "len_q", "methods", "versions"], ["byte_t", "ext_t", "ext17_t", "lane_t", "len_t", "methods", "versions"]):
+    for f in fam(t, ["byte_q", "ext_q", "lane_q", "len_q", "methods", "versions", "deep_q", "lane8_q"], ["byte_t", "ext_t", "ext17_t", "lane_t", "len_t", "methods", "versions", "deep_t", "lane8_t"]):
         replay_step(res, f, kinds=K_REQ, modes="base")
     if t == "thorough":
         for b in (2, 3):
             replay_step(res, "lane_t", kinds=K_REQ, modes="base", backend=b)
         replay_step(res, "byte_t", kinds=K_REQ, modes="base", profile="dbgchk")
     feed_traces(res, fam(t, 250000, 3000000), kinds="0")
+    if t == "thorough":
+        mc_head(res, "language-req-all-bytes", invs=["InvLanguage"], kinds='{"req"}', family="BYTE", follow="{10, 32}", caps="{1, 100000}", timeout=3000)
 
 
 def c07(res):
     t = res.tier
     mc_head(res, "language-resp", invs=["InvLanguage"], kinds='{"resp"}', L=fam(t, "2", "3"), cfgs=fam(t, "{0, 2}", "{}"),
             alpha=ALPHA17 if t == "quick" else ALPHA11)
-    for f in fam(t, ["byte_q", "ext_q", "lane_q", "len_q", "code_q", "versions", "reasons"], ["byte_t", "ext_t", "ext17_t", "lane_t", "len_t", "code_t", "versions", "reasons"]):
+    for f in fam(t, ["byte_q", "ext_q", "lane_q", "len_q", "code_q", "versions", "reasons", "deep_q", "lane8_q"], ["byte_t", "ext_t", "ext17_t", "lane_t", "len_t", "code_t", "versions", "reasons", "deep_t", "lane8_t"]):
         replay_step(res, f, kinds=K_RESP, modes="base")
     if t == "thorough":
         replay_step(res, "byte_t", kinds=K_RESP, modes="base", profile="dbgchk")
     feed_traces(res, fam(t, 250000, 3000000), kinds="1")
+    if t == "thorough":
+        mc_head(res, "language-resp-all-bytes", invs=["InvLanguage"], kinds='{"resp"}', family="BYTE", follow="{10}", caps="{100000}", cfgs="{0, 2, 94}", timeout=3000)
 
 
 def c08(res):
     t = res.tier
     mc_head(res, "language-hdrs-default", invs=["InvLanguage"], kinds='{"req", "resp", "hdrs"}', phases=HDR_PHASES,
             cfgs="{0, 1, 2}", L=fam(t, "2", "4"), caps=fam(t, "{1, 100000}", "{0, 1, 2, 100000}"))
-    for f in fam(t, ["byte_q", "ext_q", "lane_q", "len_q", "lines_q"], ["byte_t", "ext_t", "lane_t", "len_t", "lines_t", "hdrext_t"]):
+    for f in fam(t, ["byte_q", "ext_q", "lane_q", "len_q", "lines_q", "deep_q", "lane8_q"], ["byte_t", "ext_t", "lane_t", "len_t", "lines_t", "hdrext_t", "deep_t", "lane8_t"]):
         replay_step(res, f, kinds=HEADS, modes="base")
     if t == "thorough":
         for b in (2, 3):
             replay_step(res, "lane_t", kinds=HEADS, modes="base", backend=b)
     feed_traces(res, fam(t, 250000, 3000000), kinds="0,1,2")
+    if t == "thorough":
+        mc_head(res, "language-hdrs-all-bytes", invs=["InvLanguage"], kinds='{"hdrs", "req"}', family="BYTE", follow="{10}", caps="{1, 100000}", cfgs="{0}", timeout=3000)
 
 
 def c09(res):
@@ -95,12 +102,14 @@ def c09(res):
         replay_step(res, f, kinds=K_CHUNK, modes="base")
         replay_step(res, f, kinds=K_CHUNK, modes="base", profile="dbgchk")
     feed_traces(res, fam(t, 250000, 3000000), kinds="3")
+    if t == "thorough":
+        mc_head(res, "language-chunk-all-bytes", invs=["InvLanguage", "InvFraming"], kinds='{"chunk"}', family="BYTE", follow="{10, 13, 32, 58, 97}", timeout=3000)
 
 
 def c10(res):
     t = res.tier
     mc_head(res, "errkind", invs=["InvLanguage"], L=fam(t, "1", "2"), caps="{0, 1, 2, 100000}")
-    for f in fam(t, ["byte_q", "ext_q", "lines_q", "methods", "versions", "walk_q"], ["byte_t", "ext_t", "lines_t", "hdrext_t", "methods", "versions", "walk_t"]):
+    for f in fam(t, ["byte_q", "ext_q", "lines_q", "methods", "versions", "walk_q", "deep_q"], ["byte_t", "ext_t", "lines_t", "hdrext_t", "methods", "versions", "walk_t", "deep_t"]):
         replay_step(res, f, kinds=HEADS, modes="base")
     feed_traces(res, fam(t, 250000, 3000000), kinds="0,1,2")
 
@@ -109,7 +118,7 @@ def c11(res):
     t = res.tier
     mc_head(res, "honest-partial", invs=["InvHonest", "InvDeferredClosed"], L=fam(t, "1", "2"), caps="{0, 1, 2, 100000}")
     parser_refinement(res, fam(t, "3", "4"), which=fam(t, ("status-line", "chunk-size"), None))
-    for f in fam(t, ["byte_q", "ext_q", "chunk_q", "methods", "versions", "walk_q"], ["byte_t", "ext_t", "chunk_t", "lane_t", "methods", "versions", "walk_t"]):
+    for f in fam(t, ["byte_q", "ext_q", "chunk_q", "methods", "versions", "walk_q", "deep_q"], ["byte_t", "ext_t", "chunk_t", "lane_t", "methods", "versions", "walk_t", "deep_t"]):
         replay_step(res, f, modes="completion")
     feed_traces(res, fam(t, 250000, 3000000), kinds="0,1,2,3")
 
@@ -127,7 +136,7 @@ def c02(res):
 def c03(res):
     t = res.tier
     mc_head(res, "framing", invs=["InvFraming"], L=fam(t, "2", "3"), caps=fam(t, "{1, 100000}", "{0, 1, 2, 100000}"))
-    for f in fam(t, ["byte_q", "ext_q", "lane_q", "lines_q", "chunk_q", "methods", "versions", "walk_q"], ["byte_t", "ext_t", "lane_t", "lines_t", "chunk_t", "hdrext_t", "methods", "versions", "walk_t"]):
+    for f in fam(t, ["byte_q", "ext_q", "lane_q", "lines_q", "chunk_q", "methods", "versions", "walk_q", "lane8_q"], ["byte_t", "ext_t", "lane_t", "lines_t", "chunk_t", "hdrext_t", "methods", "versions", "walk_t", "lane8_t"]):
         replay_step(res, f, modes="base")
     feed_traces(res, fam(t, 250000, 3000000), kinds="0,1,2,3")
 
@@ -135,7 +144,7 @@ def c03(res):
 def c04(res):
     t = res.tier
     mc_head(res, "spans", invs=["InvSpans", "InvPast"], L=fam(t, "2", "3"))
-    for f in fam(t, ["byte_q", "ext_q", "lane_q", "len_q", "methods", "versions", "code_q"], ["byte_t", "ext_t", "lane_t", "len_t", "lines_t", "methods", "versions", "code_q"]):
+    for f in fam(t, ["byte_q", "ext_q", "lane_q", "len_q", "methods", "versions", "code_q", "lane8_q"], ["byte_t", "ext_t", "lane_t", "len_t", "lines_t", "methods", "versions", "code_q", "lane8_t"]):
         replay_step(res, f, kinds=HEADS, modes="entries" if f.startswith("ext") or f in ("methods", "versions") else "base")
     feed_traces(res, fam(t, 250000, 3000000), kinds="0,1,2")
     client_programs(res, fam(t, 600, 6000))
@@ -145,7 +154,7 @@ def c04(res):
 def c05(res):
     t = res.tier
     mc_head(res, "hygiene", invs=["InvHygiene"], L=fam(t, "2", "3"))
-    for f in fam(t, ["byte_q", "lane_q", "ext_q", "methods", "versions", "reasons", "walk_q"], ["byte_t", "lane_t", "ext_t", "ext17_t", "hdrext_t", "methods", "versions", "reasons", "walk_t"]):
+    for f in fam(t, ["byte_q", "lane_q", "ext_q", "methods", "versions", "reasons", "walk_q", "deep_q", "lane8_q"], ["byte_t", "lane_t", "ext_t", "ext17_t", "hdrext_t", "methods", "versions", "reasons", "walk_t", "deep_t", "lane8_t"]):
         replay_step(res, f, kinds=HEADS, modes="base")
     feed_traces(res, fam(t, 250000, 3000000), kinds="0,1,2")
 
@@ -154,9 +163,11 @@ def c14(res):
     t = res.tier
     mc_head(res, "language-hdrs-options", invs=["InvLanguage", "InvHygiene"], kinds='{"req", "resp"}', phases=HDR_PHASES,
             L=fam(t, "2", "3"), caps=fam(t, "{100000}", "{1, 100000}"))
-    for f in fam(t, ["byte_q", "ext_q", "lane_q", "lines_q"], ["byte_t", "ext_t", "lane_t", "lines_t", "hdrext_t"]):
+    for f in fam(t, ["byte_q", "ext_q", "lane_q", "lines_q", "deep_q", "lane8_q"], ["byte_t", "ext_t", "lane_t", "lines_t", "hdrext_t", "deep_t", "lane8_t"]):
         replay_step(res, f, kinds="0,1", modes="base")
     feed_traces(res, fam(t, 250000, 3000000), kinds="0,1")
+    if t == "thorough":
+        mc_head(res, "language-options-all-bytes", invs=["InvLanguage"], kinds='{"resp"}', family="BYTE", follow="{10}", caps="{100000}", cfgs="{94, 8, 64, 4, 16}", phases=HDR_PHASES, timeout=3000)
 
 
 def multi(res, invs, depth, kinds=("req", "resp")):
@@ -221,7 +232,7 @@ def c19(res):
 def c01(res):
     t = res.tier
     mc_head(res, "total", invs=["InvTotal", "InvConsumed"], L="1", caps="{0, 1, 2, 100000}")
-    for f in fam(t, ["byte_q", "ext_q", "lane_q", "len_q", "lines_q", "methods", "versions", "walk_q"], ["byte_t", "ext_t", "lane_t", "len_t", "lines_t", "chunk_t", "methods", "versions", "walk_t"]):
+    for f in fam(t, ["byte_q", "ext_q", "lane_q", "len_q", "lines_q", "methods", "versions", "walk_q", "deep_q", "lane8_q"], ["byte_t", "ext_t", "lane_t", "len_t", "lines_t", "chunk_t", "methods", "versions", "walk_t", "deep_t", "lane8_t"]):
         replay_step(res, f, modes="places,entries")
         replay_step(res, f, modes="places", profile="dbgchk")
     for b in (2, 3):
@@ -373,14 +384,17 @@ def c13(res):
     build_matrix(res, profiles=fam(t, ("release",), ("release", "debug")))
     race_traces(res, fam(t, 160, 2000))
     lf = fam(t, "lane_q", "lane_t")
-    replay_step(res, lf, modes="alignall" if t == "quick" else "places", baseline=True)
+    replay_step(res, lf, modes="alignall")
+    replay_step(res, lf, modes="places", baseline=True)
     replay_step(res, "len_q", modes="places", baseline=True)
     if t == "thorough":
         replay_step(res, "byte_q", modes="base", baseline=True)
     for f in ("digits", "chunk_q", "ext_q", "code_q", "methods", "versions"):
         replay_step(res, f, modes="base", baseline=True)
         replay_step(res, f, modes="base", profile="dbgchk", promote=True)
+    replay_step(res, "lane8_q", modes="places", baseline=True)
     for b in (1, 2, 3):
+        replay_step(res, "lane8_q", modes="places", backend=b, promote=True)
         replay_step(res, lf, modes="places", backend=b, promote=True)
         replay_step(res, "len_q", modes="places", backend=b, profile="dbgchk", promote=True)
     for name in fam(t, ["sse42ct", "nosimd", "nostd"], ["sse42ct", "avx2ct", "nosimd", "noct", "nostd"]):
@@ -592,9 +606,9 @@ def c12(res):
     mc_step(res, "swar-exhaustive", "MCScan", scan_cfg("grow", N=fam(t, "7", "9"), alpha=fam(t, "{9, 32, 33, 127, 128}", "{9, 32, 33, 127, 128, 255}") if t == "quick" else "{9, 32, 33, 127, 128}"),
             workers=14, timeout=2400)
     mc_step(res, "lanes-all-backends", "MCScan",
-            scan_cfg("struct", lens=fam(t, "{0, 1, 7, 8, 9, 15, 16, 17, 31, 32, 33, 47, 48, 49, 64, 65, 100}", "0..100"),
+            scan_cfg("struct", lens=fam(t, "{0, 1, 7, 8, 9, 15, 16, 17, 31, 32, 33, 47, 48, 49, 64, 65, 100}", "{" + ", ".join(str(i) for i in list(range(0, 50)) + [63, 64, 65, 66, 95, 96, 97, 100]) + "}"),
                      pbytes=fam(t, "{0, 9, 32, 33, 58, 96, 126, 127, 128, 255}", "{0, 9, 10, 13, 31, 32, 33, 34, 58, 64, 96, 126, 127, 128, 255}"),
-                     qbytes=fam(t, "{}", "{0, 127}"), fillers="{97, 9}", backends=ALLB), workers=14, timeout=3000)
+                     qbytes=fam(t, "{}", "{127}"), fillers="{97, 9}", backends=ALLB), workers=14, timeout=6000)
     scan_traces(res, thorough=(t == "thorough"))
     scan_traces(res, thorough=(t == "thorough"), neon=True, label="scan-neon-emulated")
     if t == "thorough":
@@ -757,4 +771,17 @@ def describe(pid):
 
 
 def replay_special(res, obj):
-    raise ToolError("no special replay for " + str(obj.get("kind")))
+    """Cases that are not single vectors (trace slices, scan events, client programs, build variants):
+    re-run the property's plan with the recorded seed and tier and look for the same case again."""
+    import engine as eng
+    res2 = eng.Result(res.prop, obj.get("tier", "quick"), int(obj.get("seed", 0)))
+    PLANS[res.prop](res2)
+    key = obj.get("key")
+    same = [v for v in res2.violations if (v["replay"].get("key") == key and key is not None) or v["replay"].get("kind") == obj.get("kind")]
+    if same:
+        for v in same[:3]:
+            log("VIOLATION property=%s replay=%s" % (res.prop, obj.get("_path", "")))
+            log("  " + v["msg"])
+        return 1
+    log("replay: the recorded case no longer violates %s" % res.prop)
+    return 0
